@@ -23,7 +23,7 @@ FUNC_PROPS = {
     '_process_step_expression': ('C01', 'C02'),      # C02: existence status = requirement expression evaluated
     'AttackGraph._generate_graph': ('C01', 'C02', 'C09'),
     'AttackGraph.add_node': ('C02', 'C09'),
-    'AttackGraph.remove_node': ('C09', 'C13', 'C10'),  # C10: a dangling entry point makes the saved file unloadable
+    'AttackGraph.remove_node': ('C09', 'C13', 'C10', 'C12'),  # C10: a dangling entry point makes the saved file unloadable
     'AttackGraph.remove_attacker': ('C09', 'C11'),
     'AttackGraph.add_attacker': ('C09', 'C11'),
     'AttackGraph.attach_attackers': ('C11', 'C09'),
@@ -45,7 +45,7 @@ FUNC_PROPS = {
     'Model.attacker_to_dict': ('C07',),
     'Model.get_associated_assets_by_field_name': ('C01', 'C05', 'C02'),
     'LanguageGraph._get_attacks_for_asset_type': ('C03', 'C16', 'C01', 'C02'),   # the steps/expressions C01, C02 quantify over
-    'LanguageGraph.get_association_by_fields_and_assets': ('C15', 'C18'),      # used by the securiCAD loader
+    'LanguageGraph.get_association_by_fields_and_assets': ('C15', 'C18', 'C19'),      # used by the securiCAD loader
     'LanguageGraph._get_variable_for_asset_type_by_name': ('C01', 'C03'),
     'LanguageGraph._get_associations_for_asset_type': ('C15', 'C03'),
 }
